@@ -106,6 +106,15 @@ def history_suite(ctx):
     for _ in range(ctx.budget(40, 600)):
         r0 = rng.random()
         case = gen_mol.cut_case(rng, nmax=9) if r0 < 0.4 else (gen_mol.polymer_case(rng) if r0 < 0.7 else gen_mol.ambiguous_case(rng))
+        if r0 > 0.9:
+            # end caps that are a bare hydrogen ('[$]H', rewritten to '[H]' while reading), under a name not used before
+            # in this process: the first read and every later read of the same text must give the same graphs
+            hname = 'Hcap%d' % rng.randrange(10 ** 6)
+            unit = rng.choice(['[$]CC[$]', '[$]COC[$]', '[$]C(C)C[$]'])
+            n = rng.randint(1, 3)
+            case = {'kind': 'h-capped', 'all_atom': True,
+                    's': '{[#%s][#PE]%s[#%s]}.{#%s=[$]H,#PE=%s}' % (hname, '|%d' % n if n > 1 else '', hname, hname, unit)}
+            ctx.feature('bare-hydrogen-fragment')
         if not case.get('all_atom', True):
             continue
         s = case['s']
